@@ -529,10 +529,20 @@ func runC04Sequence(c *vlib.Ctx, a *Arc, g *c04gen, seqLen int, seqID int) (aliv
 	}
 	// flush, settle, health
 	if a.Running() {
+		// no fixed settling time: wait (bounded) until the rows of every accepted
+		// structure-aware request are in a Parquet file, flushing again half-way
+		var want []int64
+		for _, s := range sent {
+			if !s.noResp && s.status >= 200 && s.status < 300 && s.q.Expect != nil {
+				want = append(want, s.q.Rids...)
+			}
+		}
 		a.Post("/api/v1/write/line-protocol/flush", nil, nil)
-		time.Sleep(700 * time.Millisecond) // age-based flush (300 ms) and async flush workers
-		a.Post("/api/v1/write/line-protocol/flush", nil, nil)
-		time.Sleep(200 * time.Millisecond)
+		time.Sleep(400 * time.Millisecond) // age-based flush (300 ms): also lets rows of rejected requests surface
+		if _, ok := waitRows(a.DataRoot(), want, 20*time.Second); !ok && a.Running() {
+			a.Post("/api/v1/write/line-protocol/flush", nil, nil)
+			waitRows(a.DataRoot(), want, 40*time.Second)
+		}
 	}
 	code, _, err := a.Get("/health")
 	if !a.Running() || err != nil || code != 200 {
@@ -685,10 +695,17 @@ func c04TypeChurn(c *vlib.Ctx, a *Arc, g *c04gen, id int) bool {
 	wg.Wait()
 	a.SetCtl("")
 	if a.Running() {
+		// no fixed settling time: wait (bounded) until every acknowledged row is in a
+		// Parquet file, flushing again half-way; rows still missing after that are lost
+		want := make([]int64, 0, len(acked))
+		for _, r := range acked {
+			want = append(want, r.rid)
+		}
 		a.Post("/api/v1/write/line-protocol/flush", nil, nil)
-		time.Sleep(900 * time.Millisecond)
-		a.Post("/api/v1/write/line-protocol/flush", nil, nil)
-		time.Sleep(300 * time.Millisecond)
+		if _, ok := waitRows(a.DataRoot(), want, 30*time.Second); !ok && a.Running() {
+			a.Post("/api/v1/write/line-protocol/flush", nil, nil)
+			waitRows(a.DataRoot(), want, 45*time.Second)
+		}
 	}
 	c.Eval()
 	c.Count("type_churn_rounds", 1)
